@@ -126,6 +126,34 @@ theorem C16_combine {σ : Type} [DecidableEq σ] (a b : Entry τ)
     obtain ⟨x, hx, y, hy, rfl⟩ := (mem_pairCands a b f c).mp hc
     exact ⟨x, hx, y, hy, h1, h2⟩
 
+/-- The clauses of the property that `C16_combine` leaves out for the combined entry: under `any`
+    a tag IS kept as soon as (and only if) an optimal pair is tagged — with `C16_combine`'s
+    `length ≤ 1` this is the "exactly one (if any optimal candidate is tagged)" of the property —,
+    under `none` no tag is kept, tags are never duplicated, and the result carries the policies of
+    the first operand. -/
+theorem C16_combine_any_none {σ : Type} [DecidableEq σ] (a b : Entry τ)
+    (f : ExtInt → τ → ExtInt → τ → Cand σ) :
+    let e := Entry.combine a b f
+    (a.retain = .any →
+      ((∃ x ∈ a.infos, ∃ y ∈ b.infos,
+          (f a.value x b.value y).info.isSome ∧ (f a.value x b.value y).value = e.value) ↔ e.infos ≠ []))
+    ∧ (a.retain = .none → e.infos = [])
+    ∧ e.infos.Nodup ∧ e.merge = a.merge ∧ e.retain = a.retain := by
+  intro e
+  have h : Inv a.merge a.retain (pairCands a b f) e := by
+    have := inv_update (inv_init (τ := σ) a.merge a.retain) (pairCands a b f)
+    simpa [e, Entry.combine, pairCands] using this
+  refine ⟨?_, h.none, h.nodup, h.merge, h.retain⟩
+  intro hra
+  constructor
+  · rintro ⟨x, hx, y, hy, h1, h2⟩
+    exact h.anyComplete hra ⟨_, (mem_pairCands a b f _).mpr ⟨x, hx, y, hy, rfl⟩, h1, h2⟩
+  · intro hne
+    obtain ⟨t, ht⟩ := List.exists_mem_of_ne_nil _ hne
+    obtain ⟨c, hc, h1, h2⟩ := h.anySound hra t ht
+    obtain ⟨x, hx, y, hy, rfl⟩ := (mem_pairCands a b f c).mp hc
+    exact ⟨x, hx, y, hy, by simp [h1], h2⟩
+
 /-- Does a batch instantiate the cell behind a proxy? -/
 def writes (batch : List (Cand τ)) : Bool := batch.any (fun x => !x.value.isInfinite)
 
@@ -180,5 +208,19 @@ example : (after .max .any [[⟨.fin 2, some 1⟩], [⟨.fin 2, some 5⟩]] : En
 
 example : Cell.value .min ([[⟨.posInf, some 1⟩]].foldl (Cell.update .min .all) (none : Cell Nat))
     = .posInf := by decide
+
+-- non-vacuity: an `any` entry CONSTRUCTED with two tags combined with a one-tag entry: two pairs, both
+-- optimal and tagged, exactly one tag kept; the same operands under `none` (tags present, so
+-- `C16_combine_untagged` does not apply) keep nothing; an untagging combinator keeps nothing under `any`.
+example : (Entry.combine ({ value := .fin 1, infos := [1, 2], merge := .min, retain := .any } : Entry Nat)
+      (after .min .any [[⟨.fin 2, some 3⟩]])
+      (fun va x vb y => ⟨va + vb, some (x * 1000 + y)⟩)).infos = [1003] := by decide
+example :
+    let e := Entry.combine ({ value := .fin 1, infos := [1, 2], merge := .min, retain := .none } : Entry Nat)
+      ({ value := .fin 2, infos := [3], merge := .min, retain := .none } : Entry Nat)
+      (fun va x vb y => (⟨va + vb, some (x * 1000 + y)⟩ : Cand Nat))
+    e.value = .fin 3 ∧ e.infos = [] := by decide
+example : (Entry.combine (after .max .any [[⟨.fin 1, some 1⟩]] : Entry Nat) (after .max .any [[⟨.fin 2, some 3⟩]])
+      (fun va _ vb _ => (⟨va + vb, none⟩ : Cand Nat))).infos = [] := by decide
 
 end SR.C16
